@@ -1,5 +1,6 @@
 import Mdsort.Proofs.WorldWholeParse
 import Mdsort.Proofs.WorldFrame
+import Mdsort.Proofs.EvalPWorld
 
 /-!
 # `processMessage` under EVERY fault plan
@@ -54,16 +55,38 @@ def WholeReg (w : World) (files : Files) : Prop :=
   ∀ dir name c, files.get dir name = some c →
     ∃ fid, w.lookup dir name = some fid ∧ fid < w.nextFid ∧ w.file fid = some ⟨c, c⟩
 
-/-- The complete version the actions of `expr` produce for the file `name` of `dir` with content `c`
-(`c` itself when the rules do not act on it): what `message_write` renders from the interpolated message. -/
-def wholeRewrite (env : PEnv) (orc : EvalOracles) (expr : Expr) (dir name c : Bytes) : Bytes :=
-  match verdict env orc expr dir name c with
-  | .act _ msgs _ => (messageWrite (msgs 0)).1
-  | _ => c
+/-- The complete version a verdict produces for a file with content `c` (`c` itself when the rules do not act on
+it): what `message_write` renders from the interpolated message. -/
+def wholeRewriteV : Verdict → Bytes → Bytes
+  | .act _ msgs _, _ => (messageWrite (msgs 0)).1
+  | _, c => c
 
-/-- No file of any name and content makes `expr` produce a discard action. -/
+/-- The complete version the actions of `expr` produce for the file `name` of `dir` with content `c` when the
+operating system answers the questions of evaluation with `as` (`command`, `isdirectory`, file-time `date`
+conditions; for a rule tree without them the answers are irrelevant, `wholeRewrite_asksFree`). -/
+def wholeRewrite (env : PEnv) (orc : EvalOracles) (expr : Expr) (dir name c : Bytes) (as : List SysAns) : Bytes :=
+  wholeRewriteV (verdictA env orc expr dir name c as) c
+
+theorem wholeRewrite_asksFree (env : PEnv) (orc : EvalOracles) (expr : Expr) (h : asksFree expr = true) (dir name c : Bytes)
+    (as : List SysAns) : wholeRewrite env orc expr dir name c as = wholeRewriteV (verdict env orc expr dir name c) c := by
+  unfold wholeRewrite; rw [verdictA_asksFree env orc expr h]
+
+/-- No file of any name and content makes `expr` produce a discard action, whatever the operating system answers. -/
 def WholeNoDiscard (env : PEnv) (orc : EvalOracles) (expr : Expr) : Prop :=
-  ∀ dir name c ml msgs fl, verdict env orc expr dir name c = .act ml msgs fl → NoDiscard ml
+  ∀ dir name c as ml msgs fl, verdictA env orc expr dir name c as = .act ml msgs fl → NoDiscard ml
+
+theorem World.WholePF.of_evalFoot {wP w0 w1 : World} (pf : World.WholePF wP w0) (ef : World.EvalFoot w0 w1) :
+    World.WholePF wP w1 := by
+  refine ⟨ef.dirs.trans pf.dirs, ef.files.trans pf.files, ef.nextFid.trans pf.nextFid, ?_, Nat.le_trans pf.len ef.len, ?_⟩
+  · intro h hh
+    rw [ef.objs h (Nat.lt_of_lt_of_le hh pf.len)]
+    exact pf.objs h hh
+  · intro h hh
+    rcases Nat.lt_or_ge h w0.handles.length with h1 | h1
+    · rw [ef.objs h h1]; exact pf.noW h hh
+    · rcases ef.new h h1 with h2 | h2 <;> rw [h2]
+      · exact ⟨(by intro _ _ h; cases h), (by intro _ _ h; cases h)⟩
+      · exact World.whole_nonW_closed
 
 theorem WholeReg.of_pf {wP w' : World} {files : Files} (h : WholeReg wP files) (pf : WholePF wP w') : WholeReg w' files := by
   intro dir name c hc
@@ -101,6 +124,11 @@ versions of the message (`cs`). -/
 def WholePMI (wP : World) (a0 : Ent) (cs : List Bytes) : World → Prop :=
   fun w' => WholeK a0 wP.handles.length wP w' ∧ Good w' cs
 
+/-- The invariant of `processMessage` when the answers of the operating system are not yet known: some entry is bound
+to a file whose contents are the message or one of the rewrites the rules can produce. -/
+def WholePMIA (env : PEnv) (orc : EvalOracles) (expr : Expr) (wP : World) (dir name content : Bytes) : World → Prop :=
+  fun w' => ∃ as, WholePMI wP (dir, name) [content, wholeRewrite env orc expr dir name content as] w'
+
 /-- What `processMessage` returns: the same maildir; the frame; the registry of the returned state is
 consistent with the world; every message that was registered is registered - under the same or a
 fresh name - with its content or its complete rewrite. -/
@@ -109,7 +137,7 @@ def WholePMPost (env : PEnv) (orc : EvalOracles) (expr : Expr) (wP : World) (md 
   r.2 = md ∧ WholeK (md.path, name) wP.handles.length wP w' ∧
   (WholeReg wP st.files → WholeReg w' r.1.files ∧
     ∀ dir nm c, st.files.get dir nm = some c → ∃ dir' nm' c', r.1.files.get dir' nm' = some c' ∧
-      (c' = c ∨ c' = wholeRewrite env orc expr dir nm c))
+      (c' = c ∨ ∃ as, c' = wholeRewrite env orc expr dir nm c as))
 
 theorem whole_post_of_pf {env : PEnv} {orc : EvalOracles} {expr : Expr} {wP w' : World} {md : Maildir} {name : Bytes}
     {st : MainSt} (pf : WholePF wP w') (r : MainSt × Maildir)
@@ -119,9 +147,9 @@ theorem whole_post_of_pf {env : PEnv} {orc : EvalOracles} {expr : Expr} {wP w' :
   exact ⟨dir, nm, c, by rw [h1]; exact hc, .inl rfl⟩
 
 theorem whole_post_of_exec {env : PEnv} {orc : EvalOracles} {expr : Expr} {wP w0 w2 : World} {md : Maildir} {name content : Bytes}
-    {st : MainSt} {xs : ExecSt} {ml : MatchList} {msgs : Nat → Msg} {fl : MFlags}
+    {st : MainSt} {xs : ExecSt} {ml : MatchList} {msgs : Nat → Msg} {fl : MFlags} {as : List SysAns}
     (hfc : st.files.get md.path name = some content)
-    (hvd : verdict env orc expr md.path name content = .act ml msgs fl)
+    (hvd : verdictA env orc expr md.path name content as = .act ml msgs fl)
     (pf : WholePF wP w0) (k2 : WholeK (md.path, name) wP.handles.length wP w2)
     (hS2 : WholeSt w0 (md.path, name) wP.handles.length (msgs 0) content w2 xs)
     (st' : MainSt) (hfiles : st'.files = afterExec st.files md.path name xs.ms) :
@@ -138,8 +166,8 @@ theorem whole_post_of_exec {env : PEnv} {orc : EvalOracles} {expr : Expr} {wP w0
       exact this
   have hfs : st'.files = (st.files.del md.path name).put p n xs.ms.content := by
     rw [hfiles]; unfold afterExec; rw [hloc]
-  have hrw : wholeRewrite env orc expr md.path name content = (messageWrite (msgs 0)).1 := by
-    unfold wholeRewrite; rw [hvd]
+  have hrw : wholeRewrite env orc expr md.path name content as = (messageWrite (msgs 0)).1 := by
+    unfold wholeRewrite; rw [hvd]; rfl
   refine ⟨?_, ?_⟩
   · intro dir nm c hc
     rw [hfs, Files.whole_get_put] at hc
@@ -164,7 +192,9 @@ theorem whole_post_of_exec {env : PEnv} {orc : EvalOracles} {expr : Expr} {wP w0
       subst hcc
       refine ⟨p, n, xs.ms.content, ?_, ?_⟩
       · rw [hfs, Files.whole_get_put]; simp
-      · rw [hrw]; exact hS2.content
+      · rcases hS2.content with h | h
+        · exact .inl h
+        · exact .inr ⟨as, by rw [hrw]; exact h⟩
     · have hne : ¬ (dir = p ∧ nm = n) := by
         rintro ⟨rfl, rfl⟩
         rcases hnbP with h | h
@@ -178,6 +208,9 @@ theorem whole_post_of_exec {env : PEnv} {orc : EvalOracles} {expr : Expr} {wP w0
       simp only [h0, if_false]
       exact hc
 
+theorem whole_good_cons {w : World} {c x : Bytes} (h : Good w [c]) : Good w [c, x] :=
+  whole_good_mono h (by intro y hy; simp at hy; simp [hy])
+
 /-- `processMessage` on a registered message under every fault plan (rules without discard). -/
 theorem whole_processMessage (env : PEnv) (orc : EvalOracles) (expr : Expr) (md : Maildir) (name : Bytes) (st : MainSt)
     {wP : World} {d : Handle} {content : Bytes}
@@ -186,23 +219,37 @@ theorem whole_processMessage (env : PEnv) (orc : EvalOracles) (expr : Expr) (md 
     (hfc : st.files.get md.path name = some content) {fid : Nat}
     (hl : wP.lookup md.path name = some fid) (hlt : fid < wP.nextFid) (hf : wP.file fid = some ⟨content, content⟩)
     (hnd : WholeNoDiscard env orc expr) :
-    wp (WholePMI wP (md.path, name) [content, wholeRewrite env orc expr md.path name content])
+    wp (WholePMIA env orc expr wP md.path name content)
       (processMessage env orc expr md name st) (WholePMPost env orc expr wP md name st) wP := by
   rw [processMessage_eq env orc expr md name st d content hd hfc]
-  have hg0 : GoodAt wP [content, wholeRewrite env orc expr md.path name content] md.path name fid :=
-    ⟨hl, hlt, _, hf, by simp, by simp⟩
+  have hg00 : GoodAt wP [content] md.path name fid := ⟨hl, hlt, _, hf, by simp, by simp⟩
+  -- while the answers are not known: the message itself is there
+  have inv0 : ∀ w', WholePF wP w' → WholePMIA env orc expr wP md.path name content w' :=
+    fun w' pf => ⟨[], pf.toK _, whole_good_cons (whole_goodAt_pf hg00 pf).good⟩
   refine wp_bind_mono (wp_inv_mono (whole_wp_all (World.whole_messageParseP d md.path name content hp hl)
-    (all_messageParseP_as d md.path name content)) (fun w' pf => ⟨pf.toK _, (whole_goodAt_pf hg0 pf).good⟩)) ?_
-  rintro pm w0 ⟨⟨pf, hms⟩, hpa⟩
+    (all_messageParseP_as d md.path name content)) inv0) ?_
+  rintro pm w00 ⟨⟨pf00, hms⟩, hpa⟩
   cases pm with
-  | none => exact whole_post_of_pf pf _ rfl rfl
+  | none => exact whole_post_of_pf pf00 _ rfl rfl
   | some ms =>
-    have hv := msVerdict_of_parsed env orc expr md.path name content ms hpa
-    simp only [afterParse, hv]
-    obtain ⟨h1, h2, h3, h4, h5, -⟩ := hms ms rfl
+    simp only [afterParse]
+    obtain ⟨h1, h2, h3, h4, h5', -⟩ := hms ms rfl
+    -- evaluation: the footprint of the parse phase is kept
+    refine wp_bind_mono (wp_inv_mono (World.wp_evalFoot (msgEnv env orc ms.path) expr ms.msg ms.flags w00)
+      (fun w' ef => inv0 w' (pf00.of_evalFoot ef))) ?_
+    rintro ev w0 ⟨ef, as, hev⟩
+    have pf : WholePF wP w0 := pf00.of_evalFoot ef
+    have h5 : wP.handles.length < w0.handles.length := Nat.lt_of_lt_of_le h5' ef.len
+    have hv : evVerdict env orc ms ev = verdictA env orc expr md.path name content as := by
+      rw [hev]; exact msVerdictA_of_parsed env orc expr md.path name content ms hpa as
+    rw [hv]
+    have hg0 : GoodAt wP [content, wholeRewrite env orc expr md.path name content as] md.path name fid :=
+      ⟨hl, hlt, _, hf, by simp, by simp⟩
+    have invA : ∀ w', WholePMI wP (md.path, name) [content, wholeRewrite env orc expr md.path name content as] w' →
+        WholePMIA env orc expr wP md.path name content w' := fun w' h => ⟨as, h⟩
     -- closing the descriptor when nothing is executed
     have freePF : ∀ (ms' : MsgSt) (r : MainSt × Maildir), ms'.fd = ms.fd → r.1.files = st.files → r.2 = md →
-        wp (WholePMI wP (md.path, name) [content, wholeRewrite env orc expr md.path name content])
+        wp (WholePMIA env orc expr wP md.path name content)
           ((freeP ms').bind fun _ => Prog.ret r) (WholePMPost env orc expr wP md name st) w0 := by
       intro ms' r hfd hr1 hr2
       unfold freeP
@@ -211,8 +258,8 @@ theorem whole_processMessage (env : PEnv) (orc : EvalOracles) (expr : Expr) (md 
       refine wp_call_any fun rc => ?_
       have pf1 : WholePF wP (stepWorld w0 (.close wP.handles.length) rc) :=
         WholePF.step_of_core (World.core_close w0 _ rc) (pf.setObj (Nat.le_refl _) World.whole_nonW_closed)
-      exact ⟨⟨pf1.toK _, (whole_goodAt_pf hg0 pf1).good⟩, whole_post_of_pf pf1 r hr1 hr2⟩
-    cases hvd : verdict env orc expr md.path name content with
+      exact ⟨inv0 _ pf1, whole_post_of_pf pf1 r hr1 hr2⟩
+    cases hvd : verdictA env orc expr md.path name content as with
     | unparsable => simp only [afterVerdict]; exact freePF ms _ rfl rfl rfl
     | error => simp only [afterVerdict]; exact freePF ms _ rfl rfl rfl
     | interpFail => simp only [afterVerdict]; exact freePF ms _ rfl rfl rfl
@@ -222,12 +269,12 @@ theorem whole_processMessage (env : PEnv) (orc : EvalOracles) (expr : Expr) (md 
       split
       · exact freePF _ _ rfl rfl rfl
       · -- the action list is executed
-        have hml : NoDiscard ml := hnd md.path name content ml msgs fl hvd
-        have hrw : wholeRewrite env orc expr md.path name content = (messageWrite (msgs 0)).1 := by
-          unfold wholeRewrite; rw [hvd]
+        have hml : NoDiscard ml := hnd md.path name content as ml msgs fl hvd
+        have hrw : wholeRewrite env orc expr md.path name content as = (messageWrite (msgs 0)).1 := by
+          unfold wholeRewrite; rw [hvd]; rfl
         have hdlt : d < wP.handles.length := World.lt_of_dirPath hp
         have hps0 : w0.dirPath d = some md.path := by rw [← hp]; exact World.dirPath_congr (pf.objs d hdlt)
-        have hg1 : GoodAt w0 [content, wholeRewrite env orc expr md.path name content] md.path name fid :=
+        have hg1 : GoodAt w0 [content, wholeRewrite env orc expr md.path name content as] md.path name fid :=
           whole_goodAt_pf hg0 pf
         have hA : At w0 { src := md, chsrc := false, ms := { ms with msg := msgs 0, flags := fl }, reject := false } d fid := by
           refine ⟨hd, hps0, hwf, ?_, ?_, by rw [pf.nextFid]; exact hlt, ?_, ?_⟩
@@ -260,10 +307,10 @@ theorem whole_processMessage (env : PEnv) (orc : EvalOracles) (expr : Expr) (md 
           { src := md, chsrc := false, ms := { ms with msg := msgs 0, flags := fl }, reject := false } hg1.good
           (by rw [hrw]; simp) hml
         refine wp_bind_mono (wp_inv_mono (World.whole_wp_and gexec kexec)
-          (fun w' h => ⟨k0.trans h.2 (.inl rfl) (Nat.le_refl _), h.1⟩)) ?_
+          (fun w' h => invA w' ⟨k0.trans h.2 (.inl rfl) (Nat.le_refl _), h.1⟩)) ?_
         rintro x w1 ⟨hgood1, k1, hS1⟩
         have k01 : WholeK (md.path, name) wP.handles.length wP w1 := k0.trans k1 (.inl rfl) (Nat.le_refl _)
-        refine wp_bind_mono (R := fun _ w2 => WholePMI wP (md.path, name) [content, wholeRewrite env orc expr md.path name content] w2 ∧
+        refine wp_bind_mono (R := fun _ w2 => WholePMI wP (md.path, name) [content, wholeRewrite env orc expr md.path name content as] w2 ∧
           WholeSt w0 (md.path, name) wP.handles.length (msgs 0) content w2 x.1) ?_ ?_
         · unfold freeP
           split
@@ -273,14 +320,15 @@ theorem whole_processMessage (env : PEnv) (orc : EvalOracles) (expr : Expr) (md 
             have k2 := k01.step (.close h) rc rfl (by intro h' hh'; cases hh'; exact hS1.fdCut h hh) (fun _ _ => trivial)
             obtain ⟨p, n, g, hg⟩ := hgood1
             have g2 := (hg.step (.close h) rc trivial trivial).good
-            exact ⟨⟨k2, g2⟩, ⟨k2, g2⟩, hS1.step _ rc rfl (fun _ => trivial)⟩
+            exact ⟨invA _ ⟨k2, g2⟩, ⟨k2, g2⟩, hS1.step _ rc rfl (fun _ => trivial)⟩
           · exact ⟨⟨k01, hgood1⟩, hS1⟩
         · rintro _ w2 ⟨⟨k2, -⟩, hS2⟩
           exact whole_post_of_exec hfc hvd pf k2 hS2 _ rfl
 
 /-- **One message, every fault plan** (`runPlan` form): after every call of `processMessage` on a
 message whose entry is bound to a complete file, some entry is bound to a file whose visible - and
-whose durable - content is the message or its complete rewrite, and every OTHER entry that was bound
+whose durable - content is the message or a complete rewrite of it by the rules (for some answers of the operating
+system to the questions of evaluation), and every OTHER entry that was bound
 is bound to the same file, whose content is unchanged. -/
 theorem whole_message_no_loss (env : PEnv) (orc : EvalOracles) (expr : Expr) (md : Maildir) (name : Bytes) (st : MainSt)
     (w : World) (plan : Plan) {d : Handle} {content : Bytes} {fid : Nat}
@@ -290,14 +338,14 @@ theorem whole_message_no_loss (env : PEnv) (orc : EvalOracles) (expr : Expr) (md
     (hl : w.lookup md.path name = some fid) (hlt : fid < w.nextFid) (hf : w.file fid = some ⟨content, content⟩)
     (hnd : WholeNoDiscard env orc expr) :
     ∀ w' ∈ (runPlan plan (processMessage env orc expr md name st) w 0 []).2.2,
-      Intact w' [content, wholeRewrite env orc expr md.path name content] ∧
-      IntactDurable w' [content, wholeRewrite env orc expr md.path name content] ∧
+      (∃ as, Intact w' [content, wholeRewrite env orc expr md.path name content as] ∧
+        IntactDurable w' [content, wholeRewrite env orc expr md.path name content as]) ∧
       ∀ q m g, (q, m) ≠ (md.path, name) → w.lookup q m = some g →
         w'.lookup q m = some g ∧ (g < w.nextFid → w'.file g = w.file g) := by
   intro w' hw'
   rw [World.runPlan_eq] at hw'
   simp only [List.nil_append] at hw'
-  obtain ⟨k, hg⟩ := (World.wp_sound plan (whole_processMessage env orc expr md name st hd hp hwf hfc hl hlt hf hnd) 0).1 w' hw'
-  exact ⟨hg.intact, hg.intactDurable, fun q m g hne hq => ⟨k.look (q, m) g hne hq, fun h => k.files g h⟩⟩
+  obtain ⟨as, k, hg⟩ := (World.wp_sound plan (whole_processMessage env orc expr md name st hd hp hwf hfc hl hlt hf hnd) 0).1 w' hw'
+  exact ⟨⟨as, hg.intact, hg.intactDurable⟩, fun q m g hne hq => ⟨k.look (q, m) g hne hq, fun h => k.files g h⟩⟩
 
 end Mdsort.Proofs
